@@ -302,7 +302,17 @@ def touches_ghost(sim, name: str) -> bool:
     return any(n - a <= g < n for g in sim.ghosts)
 
 
+# alternative sets of declared claims, selected by a marker as first element of a history
+CLAIM_SETS = {
+    # one claim that is provable in one step and is NOT an axiom of the seed theories: prop1 itself
+    'prop1': [P.Implies(P.MetaVar(0), P.Implies(P.MetaVar(1), P.MetaVar(0)))],
+}
+
+
 def replay_history(hist, claims=None) -> Sim:
+    if hist and hist[0].startswith('@claims:'):
+        claims = CLAIM_SETS[hist[0].split(':', 1)[1]]
+        hist = hist[1:]
     sim = Sim(claims)
     for name in hist:
         EVENTS[name](sim)
